@@ -499,8 +499,27 @@ func genC02Short(g *Gen) {
 		if i%3 == 1 {
 			lead2 = lead
 		}
-		for k := 1; k < len(frame); k++ {
-			g.emit("stream", hx(append(append([]byte{}, lead2...), frame[:k]...)))
+		// every proper prefix of a short frame; of a long one the first 64, the last 16 and a sample
+		// in between (all prefixes of a 60 KB frame would be gigabytes of cases)
+		cut := func(k int) { g.emit("stream", hx(append(append([]byte{}, lead2...), frame[:k]...))) }
+		if len(frame) <= 400 {
+			for k := 1; k < len(frame); k++ {
+				cut(k)
+			}
+		} else if len(frame) <= 20000 {
+			for k := 1; k <= 64; k++ {
+				cut(k)
+			}
+			for j := 0; j < 40; j++ {
+				cut(65 + g.rng.Intn(len(frame)-82))
+			}
+			for k := len(frame) - 16; k < len(frame); k++ {
+				cut(k)
+			}
+		} else {
+			for _, k := range []int{1, 2, 3, 4, 5, 8, 16, 64, len(frame) / 2, len(frame) - 2, len(frame) - 1} {
+				cut(k)
+			}
 		}
 	}
 }
